@@ -17,8 +17,9 @@ static const char *BASES[] = {
 
 static std::string apply_edits(FuzzedDataProvider &fdp) {
   std::string f = BASES[fdp.ConsumeIntegralInRange<size_t>(0, 2)];
-  static const char *repl[] = {"abc", "-1", "0", "4294967295", "4294967296", "1e30", "nan", "", "\"", "999999", "1000000", "3:", "Faces", "0x10", "+", "2147483648"};
-  int nedits = fdp.ConsumeIntegralInRange<int>(1, 5);
+  static const char *repl[] = {"abc", "-1", "0", "4294967295", "4294967296", "1e30", "nan", "", "\"", "999999", "1000000", "3:", "Faces", "0x10", "+", "2147483648",
+                               "1", "2", "3", "4", "5", "6", "7", "8", "9", "10", "11", "12"};  // other valid indices: lists that are well-formed but wrong
+  int nedits = fdp.ConsumeIntegralInRange<int>(1, 6);
   for (int e = 0; e < nedits && fdp.remaining_bytes() > 0; ++e) {
     // token boundaries
     std::vector<std::pair<size_t, size_t>> tok, lines;
@@ -34,7 +35,7 @@ static std::string apply_edits(FuzzedDataProvider &fdp) {
     auto t = tok[fdp.ConsumeIntegralInRange<size_t>(0, tok.size() - 1)];
     auto l = lines[fdp.ConsumeIntegralInRange<size_t>(0, lines.size() - 1)];
     switch (kind) {
-    case 0: f.replace(t.first, t.second - t.first, repl[fdp.ConsumeIntegralInRange<size_t>(0, 15)]); break;
+    case 0: f.replace(t.first, t.second - t.first, repl[fdp.ConsumeIntegralInRange<size_t>(0, 27)]); break;
     case 1: f.erase(t.first, t.second - t.first); break;
     case 2: f.insert(t.second, " " + f.substr(t.first, t.second - t.first)); break;
     case 3: f.erase(l.first, l.second - l.first); break;
